@@ -323,7 +323,7 @@ def hours_for(budget):
     return Fraction(budget, 60)
 
 
-def impl_day(case, record=None):
+def impl_day(case, cost_kw=None):
     """real deploy_crews on a real Workplan of real SurveyPlanners; returns stats, reports, crews
     and the per-visit trace observed by a wrapper around survey_site"""
     (cls, stationary, cost_type, unit_cost, budget, crews, consider_weather, reqs) = case[:8]
@@ -342,6 +342,9 @@ def impl_day(case, record=None):
         kw["per_site"] = unit_cost
     else:  # "none": neither key positive
         kw["per_day"] = 0
+    if cost_kw is not None:   # explicit cost block (C10): per_day, per_site (None = key absent), upfront
+        kw.pop("per_site", None)
+        kw.update(cost_kw)
     m = make_method(cls, sites=sites or [StubSite("s0", 60)], consider_weather=consider_weather, **kw)
     if crews == 0 and not stationary:
         # a method whose crews are all gone: the constructor cannot produce it (crew_count 0 means
